@@ -190,7 +190,8 @@ def check(out: Outcome, p: dict, xs: list, runners: list, enum: bool = False, ca
         # from the exact computation, never from an attribute of the detector), plus: the posterior means are stored at the magnitude of the data - an absolute rounding
         # error of about |x| * 2^-52 per update, which moves the densities by (x - mu) * error / variance (at level 3e9 a few 1e-9 in the probabilities)
         st = steps[t - 1]
-        data_term = 2e-15 * max(abs(v) for v in xs[:t]) * max(1.0, 1.0 / min(fp["data_var"], fp["prior_var"]))
+        # (in units of the smaller standard deviation, so that the term is the same for a problem and its rescaled copies)
+        data_term = 1e-14 * max(abs(v) for v in xs[:t]) / math.sqrt(min(fp["data_var"], fp["prior_var"])) + 2e-15 * max(1.0, max(fp["data_var"], fp["prior_var"]) / min(fp["data_var"], fp["prior_var"]))
         tol = st["sum"] + data_term
         tols[t] = tol
         bad = None
@@ -218,8 +219,8 @@ def check(out: Outcome, p: dict, xs: list, runners: list, enum: bool = False, ca
         # predictions: mixture over the current posterior of the per-run-length posterior parameters
         pm = sum(w * params(fp, xs[t - rl: t])[0] for rl, w in enumerate(want))
         pv = sum(w * params(fp, xs[t - rl: t])[1] for rl, w in enumerate(want))
-        sc = max([1.0] + [abs(v) for v in xs])
-        if abs(float(d.predicted_mean) - pm) > (1e-8 + 10 * tol) * sc or abs(float(d.predicted_var) - pv) > (1e-8 + 10 * tol) * sc:
+        sc = max([math.sqrt(max(fp["data_var"], fp["prior_var"])), abs(fp["prior_mean"])] + [abs(v) for v in xs])     # scale of the problem (no floor at 1)
+        if abs(float(d.predicted_mean) - pm) > (1e-8 + 10 * tol) * sc or abs(float(d.predicted_var) - pv) > (1e-8 + 10 * tol) * (fp["prior_var"] + fp["data_var"]):
             out.violation(f"BOCD: predicted (mean, var)=({float(d.predicted_mean)!r}, {float(d.predicted_var)!r}) differ from the posterior-weighted mixtures ({pm!r}, {pv!r}) at step {t}", rep)
             break
         if t >= fp["min_num_instances"]:
@@ -358,6 +359,14 @@ def run(out: Outcome) -> None:
         if i % 4 == 2:        # a far outlier (predictive densities underflow in linear space but not in log space)
             xs = [rng.gauss(0, 0.3) for _ in range(L)]
             xs[rng.randint(2, L - 1)] = rng.choice([45.0, 100.0, -60.0])
+        if i % 3 == 0 and i % 4 != 2:
+            # the whole problem at another scale (a latency of 5 ns in seconds; counts of bytes): values and prior mean by s, variances by s^2 - the conjugate Gaussian
+            # model is scale-equivariant, the exact posterior is the same
+            fp0 = dets.full_params("BOCD", p)
+            sc = rng.choice([1e-9, 2.0 ** -30, 1e-6, 1e3, 1e6])
+            p = {**p, "prior_mean": fp0["prior_mean"] * sc, "prior_var": fp0["prior_var"] * sc * sc, "data_var": fp0["data_var"] * sc * sc}
+            xs = [v * sc for v in xs]
+            out.count("rescaled_problems")
         check(out, p, xs, runners)
     for _ in range(12 if thorough else 5):
         p = gen.rand_params(rng, "BOCD")
